@@ -387,6 +387,17 @@ func runPortfolio(dir, name, query string, timeoutS int, useCvc5 bool) SolverRes
 		}
 	}
 	best.Output = strings.Join(outs, "\n")
+	// every solver rejected the query (parse or sort error): that is a bug of the generator, not an open question
+	allErr := n > 0
+	for _, o := range outs {
+		if !strings.Contains(o, ": error ") {
+			allErr = false
+		}
+	}
+	if allErr {
+		best.Result = "solver-error"
+		return best
+	}
 	if best.Result == "error" {
 		best.Result = "unknown"
 	}
